@@ -117,7 +117,7 @@ class Hom:
             return ds[0] - ds[1]
         if op == "neg":
             return self.deg(a[0])
-        if op == "pow":
+        if op in ("pow", "np.power") and len(a) == 2:
             db, de = self.deg(a[0]), self.deg(a[1])
             if de not in (0, "any"):
                 if de is not None:
